@@ -26,7 +26,9 @@ evaluated before any element is assigned, are kept even when the sides overlap")
      mapped to one loop variable overwrite each other's bounds.
  R5  ``flatten_arrays`` drops the subscript list ("whole array") only when every
      subscript is the full range without stride: the predicate is evaluated over
-     the abstract subscripts {scalar, lower/upper/step present or absent}.
+     the abstract subscripts {scalar, lower/upper/step present or absent}.  The
+     same for the three ``all(<full range>(dim) for dim in X.dimensions)`` tests of
+     ``remove_explicit_array_dimensions`` (helpers expanded from their definitions).
  R6  the shifted index is ``i - a + c``: the expression built by
      ``_compute_shifted_index`` for LHS range ``a:b``, RHS range ``c:d`` and loop
      variable ``i`` is compared, as a linear normal form over the constructor
@@ -44,6 +46,10 @@ evaluated before any element is assigned, are kept even when the sides overlap")
      ``normalize_array_shape_and_access`` the new start / stop / scalar index are,
      as linear forms, ``<old> - <declared lower> + 1`` and the new extent is
      ``upper - lower + 1``.
+ R9  no subscript escapes the shift: in the branch for a dimension whose declared
+     lower bound is not 1, a subscript is appended unchanged only under guards
+     that make both its start and its stop absent (a bare ``:``); ``x(:k)`` kept
+     as it is would address the old declaration.
 Not decided: the other index arithmetic (strided shifts), explicit-dimension insertion / removal,
 zero-based shifting, flattening (all value-level).
 """
@@ -344,6 +350,53 @@ def run_r78(ctx):
                               f'`{ast.unparse(c)}` is `{show(got)}`: shifting an index of a dimension declared lower:upper to lower bound 1 is '
                               f'`<old> - {decl}.lower + 1`, its extent `{decl}.upper - {decl}.lower + 1`', instance=inst)
     ctx.floor('R8', 'shift / extent formulas', n8, 5)
+    # ---- R9: under a re-based declaration no subscript is kept as it is, unless it has no bound at all
+    ctx.rule('R9', 'normalize_array_shape_and_access: in the branch of a dimension whose declared lower bound is not 1 a subscript is kept '
+                   'unchanged only when neither its start nor its stop is present')
+    aliases = set()
+    for a in ast.walk(nz.node):
+        if isinstance(a, ast.Assign) and len(a.targets) == 1 and isinstance(a.targets[0], ast.Name) and isinstance(a.value, ast.Subscript) \
+                and isinstance(a.value.value, ast.Attribute) and a.value.value.attr == 'dimensions':
+            aliases.add(a.targets[0].id)
+    n9 = 0
+
+    def appended(st):
+        if isinstance(st, ast.AugAssign) and isinstance(st.op, ast.Add) and isinstance(st.value, (ast.List, ast.Tuple)):
+            return list(st.value.elts)
+        if isinstance(st, ast.Expr) and isinstance(st.value, ast.Call) and isinstance(st.value.func, ast.Attribute) and st.value.func.attr == 'append':
+            return list(st.value.args)
+        return []
+    for st, guards in X.nodes_with_guards(nz.node, lambda x: bool(appended(x)), early=True):
+        rebased = any(g.startswith('is_explicit_range_index(') for g in guards)
+        if not rebased:
+            continue
+        for e in appended(st):
+            n9 += 1
+            raw = (isinstance(e, ast.Name) and e.id in aliases) or (
+                isinstance(e, ast.Subscript) and isinstance(e.value, ast.Attribute) and e.value.attr == 'dimensions')
+            inst = f'normalize_array_shape_and_access:{ast.unparse(st)[:50]}'
+            if not raw:
+                ctx.judge('R9', inst)
+                continue
+            nm = ast.unparse(e)
+            gs = []
+            for g in guards:
+                try:
+                    t_ = ast.parse(g, mode='eval').body
+                except SyntaxError:
+                    continue
+                parts = t_.values if isinstance(t_, ast.BoolOp) and isinstance(t_.op, ast.And) else [t_]
+                gs += [ast.unparse(p_).replace(' ', '') for p_ in parts]
+            no_lo = any(g in (f'{nm}.startisNone', f'{nm}.lowerisNone') for g in gs)
+            no_up = any(g in (f'{nm}.stopisNone', f'{nm}.upperisNone') for g in gs)
+            if no_lo and no_up:
+                ctx.judge('R9', inst, facts={'guards': guards})
+            else:
+                ctx.violation('R9', 'normalize_array_shape_and_access:section-not-rebased', f'{AI}:{st.lineno}',
+                              f'`{ast.unparse(st)}` keeps the subscript `{nm}` of a dimension whose declaration is re-based to lower bound 1 '
+                              f'under [{"; ".join(guards)}]: a bound that is present stays an index of the old declaration -- with x(0:n), '
+                              f'`x(:1)` (two elements) stays `x(:1)` (one element)', instance=inst)
+    ctx.floor('R9', 'subscripts appended under a re-based declaration', n9, 2)
 
 
 class _AbsRange:
@@ -447,9 +500,68 @@ def run_r45(ctx, T):
     if not bad:
         ctx.judge('R5', 'whole-array predicate', facts={'rows': rows})
         ctx.floor('R5', 'subscript tuples evaluated', rows, 9)
+    # the same predicate in remove_explicit_array_dimensions: `all(<full range>(dim) for dim in X.dimensions)`
+    vmod = m.module_by_path(FILE)
+    rf = vmod.functions.get('remove_explicit_array_dimensions')
+    if rf is None:
+        raise AnalysisError('remove_explicit_array_dimensions vanished')
+    envv = {'sym': types.SimpleNamespace(RangeIndex=_AbsRange), 'isinstance': isinstance}
+    for nm, fn_ in vmod.functions.items():
+        if nm != rf.name:
+            def mk2(fn_=fn_):
+                def call(*a):
+                    e2 = dict(envv)
+                    e2.update({p.arg: v for p, v in zip(fn_.node.args.args, a)})
+                    return run_function(fn_.node, e2)
+                return call
+            envv[nm] = mk2()
+    n5b = 0
+    for c_ in ast.walk(rf.node):
+        if not (isinstance(c_, ast.Call) and isinstance(c_.func, ast.Name) and c_.func.id == 'all' and c_.args
+                and isinstance(c_.args[0], (ast.GeneratorExp, ast.ListComp)) and len(c_.args[0].generators) == 1
+                and ast.unparse(c_.args[0].generators[0].iter).endswith('.dimensions') and isinstance(c_.args[0].generators[0].target, ast.Name)):
+            continue
+        n5b += 1
+        gen = c_.args[0]
+        tv = gen.generators[0].target.id
+        inst = f'remove_explicit_array_dimensions:{ast.unparse(c_)[:70]}'
+        wrong = None
+        for d_ in subs:
+            env = dict(envv)
+            env[tv] = d_
+            try:
+                got = bool(ev_ext(gen.elt, env))
+            except Unknown as u:
+                raise AnalysisError(f'remove_explicit_array_dimensions: whole-array predicate `{ast.unparse(gen.elt)}` uses `{u}`, outside the '
+                                    f'evaluated fragment')
+            want = isinstance(d_, _AbsRange) and d_.children == (None, None, None)
+            if got and not want:
+                wrong = d_
+                break
+        if wrong is None:
+            ctx.judge('R5', inst, facts={'subscripts_evaluated': len(subs)})
+        else:
+            ctx.violation('R5', 'remove_explicit_array_dimensions:subscripts-dropped', f'{vmod.relpath}:{c_.lineno}',
+                          f'`{ast.unparse(gen.elt)}` holds for the subscript `{wrong!r}`: a reference such as a({wrong!r}) is rewritten to the whole '
+                          f'array `a`, every element is assigned / passed instead of the selected ones', instance=inst)
+    ctx.floor('R5', 'whole-array predicates in remove_explicit_array_dimensions', n5b, 3)
 
 
 MUTANTS = [
+    Mutant('strided-section-taken-for-whole-array', FILE, "            if all(dim == sym.RangeIndex((None, None)) for dim in array.dimensions):",
+           "            if all(isinstance(dim, sym.RangeIndex) and dim.lower is None and dim.upper is None for dim in array.dimensions):",
+           expect=('R5', 'remove_explicit_array_dimensions:subscripts-dropped')),
+    Mutant('neutral-full-range-by-components', FILE, "            if all(dim == sym.RangeIndex((None, None)) for dim in array.dimensions):",
+           "            if all(isinstance(dim, sym.RangeIndex) and dim.lower is None and dim.upper is None and dim.step is None for dim in array.dimensions):",
+           expect=None),
+    Mutant('open-start-section-not-rebased', 'loki/transformations/array_indexing/array_indices.py',
+           "                        start = simplify(dim.start - d.start + 1) if dim.start is not None else None\n                        stop = simplify(dim.stop",
+           "                        if dim.start is None:\n                            new_dims += [dim]\n                            continue\n"
+           "                        start = simplify(dim.start - d.start + 1)\n                        stop = simplify(dim.stop", expect=('R9', 'section-not-rebased')),
+    Mutant('neutral-bare-colon-kept', 'loki/transformations/array_indexing/array_indices.py',
+           "                        start = simplify(dim.start - d.start + 1) if dim.start is not None else None\n                        stop = simplify(dim.stop",
+           "                        if dim.start is None and dim.stop is None:\n                            new_dims += [dim]\n                            continue\n"
+           "                        start = simplify(dim.start - d.start + 1) if dim.start is not None else None\n                        stop = simplify(dim.stop", expect=None),
     Mutant('normalised-section-loses-stride', 'loki/transformations/array_indexing/array_indices.py',
            "                        new_dims += [sym.RangeIndex((start, stop, dim.step))]", "                        new_dims += [sym.RangeIndex((start, stop, d.step))]",
            expect=('R7', 'section-components')),
